@@ -119,14 +119,35 @@ def gen_odd(rng):
     return 'redirect %s %s - 1 - %s' % (rng.choice(['GET', 'DELETE']), hx('http://@H%d@/s' % host), ','.join(table))
 
 
+def _table_errs():
+    """the client's error messages as the table generator read them from client.rs (their wording is not part of the property)"""
+    import os
+    import re
+    out = dict(ERRS)
+    try:
+        from hv import V
+        t = open(os.path.join(V, 'coq/theories/TablesClient.v'), encoding='utf-8').read()
+        for name, cls in (('CLIENT_ERR_NO_LOCATION', 'NoLocation'), ('CLIENT_ERR_INVALID_URL', 'InvalidURL')):
+            m = re.search(r'Definition %s : list N := \[([0-9; ]*)\]' % name, t)
+            if m:
+                out[bytes(int(x) for x in m.group(1).split(';') if x.strip())] = cls
+    except (OSError, ValueError, ImportError):
+        pass
+    return out
+
+
 def norm_impl(b):
+    global ERRS
+    if not getattr(norm_impl, 'ready', False):
+        ERRS = _table_errs()
+        norm_impl.ready = True
     if b.startswith('err='):
         e, _, rest = b[4:].partition(' ')
         try:
             txt = bytes.fromhex(e)
         except ValueError:
             return b
-        return 'err=' + ERRS.get(txt, 'other:' + txt.decode('utf-8', 'replace')) + ' ' + rest
+        return 'err=' + ERRS.get(txt, 'TLS' if b'TLS' in txt else 'other:' + txt.decode('utf-8', 'replace')) + ' ' + rest
     return b
 
 
